@@ -239,6 +239,9 @@ class Calibrator:
       if output_tensor_idx != -1:
         output_tensor = subgraph_tensors[output_tensor_idx]
         scope += tfl_flatbuffer_utils.get_tensor_name(output_tensor)
+        # Same encoding as ParamsGenerator._get_op_scope, so that a rule
+        # selects the same ops for calibration and for quantization.
+        scope += ";"
     return scope
 
   # TODO: b/354224138 - Remove code duplication between calibrate and
